@@ -11,18 +11,19 @@ MANIFEST = dict(
          'form is the CIP-19 header byte (kind nibble*16 + network) followed by the credential bytes, and from_primitive(bytes(a)) '
          '= a with the same credential classes for every well-formed address; the text form is Bech32 (constant 1) of those bytes '
          'under addr/stake(+_test) and decodes back to a whenever it has at most 108 characters (always when the pointer numbers '
-         'are below 2^63); convertbits 8->5->8 round trip; bech32_polymod = remainder modulo g(x) over GF(32) (BIP-173 written as '
-         'polynomial arithmetic), created checksums verify; single-substitution guarantee for ALL valid strings (length <= 108): '
-         'replacing one data-part character by any other character except "1" is rejected (or is a case-only change decoding to '
-         'the same value), via XOR-linearity of polymod and a finite 120x31 single-error table that also excludes the '
-         'Bech32<->Bech32m difference (the decoder accepts both constants). Constants re-extracted from the source by an AST '
-         'translator on every run and proved equal to the ones in the proofs; model tied to the code by correspondence.',
+         'are below 2^63; refuted beyond: encode() returns None); convertbits 8->5->8 round trip; bech32_polymod = remainder '
+         'modulo g(x) over GF(32) (BIP-173 written as polynomial arithmetic), created checksums verify; single-substitution '
+         'guarantee for ALL valid strings (length <= 108) at ALL positions: the substituted string is rejected (or is a case-only '
+         'change decoding to the same value) unless the substitution moves the separator; via XOR-linearity of polymod and two '
+         'finite tables (120x31 single errors, 102x4x32x108 prefix double errors) that also exclude the Bech32<->Bech32m '
+         'difference (the decoder accepts both constants). Constants re-extracted from the source by an AST translator on '
+         'every run and proved equal to the ones in the proofs; model tied to the code by correspondence.',
     note='Trusted: Coq kernel+vm_compute; hand model Bech32.v/Address.v (AST shape fingerprints + constants regenerated per run + '
-         'correspondence); generator; driver. No axioms. Excluded from the substitution theorem: substituting the character "1" '
-         '(moves the separator), substitutions in the prefix/separator, case-only changes; these are covered by the exhaustive '
-         'sampled run only.',
-    technique='Coq proof (XOR-linearity + finite table by vm_compute, bit-string invariant for convertbits, GF(32) Horner remainder) '
-              '+ AST constant translator + model/implementation correspondence', ref='C15')
+         'correspondence); generator; driver. No axioms. Excluded from the substitution theorems: writing the character "1" into '
+         'the data part and overwriting the separator of a prefix that itself contains "1" (both move the separator; chance '
+         '2^-30 per string), covered by the exhaustive sampled run only; truncations/insertions are tested, not proved.',
+    technique='Coq proof (XOR-linearity + finite tables by vm_compute, bit-string invariant for convertbits, GF(32) Horner remainder) '
+              '+ AST constant translator + model/implementation correspondence (theorem-accelerated, proved equal to plain)', ref='C15')
 TRUSTED = [
     'Coq 8.16.1 kernel incl. vm_compute (no native_compute); no axioms (see Print Assumptions lines)',
     'hand model coq/theories/Bech32.v + Address.v of crypto/bech32.py, address.py, network.py; tied per run by (a) AST shape '
